@@ -14,7 +14,7 @@ def run(res):
     run_contracts(res, [cs.SEMI_INIT, cs.SEMI_EL, cs.SEMI_LEN, cs.WEIGHTED_EL, cs.WEIGHTED_LEN, cs.WEIGHTED_ITER, cs.CB_EL, cs.CB_LEN, cs.CB_ITER],
                   cs.CONTRACTS)
     select(res, MINE)
-    C12.bounded(res, rp.cases_c13(100000 if res.tier == "thorough" else 500, random.Random(res.seed)), "c13-samplers")
+    C12.bounded(res, rp.cases_c13(100000 if res.tier == "thorough" else 800, random.Random(res.seed)), "c13-samplers")
     res.notes.append("proved: SemiSampler.__init__ partitions the dataset into the labeled / unlabeled pools by the -1 marker (increasing, "
                      "sound, complete), the length formulas, the weighted and class-balanced streams; bounded only (not proved): evenness of class reuse, pool exhaustion before repeats and the labeled/unlabeled "
                      "alternation of SemiSampler.__iter__ (nested generator consumed through next(), outside the verified subset)")
